@@ -1,4 +1,14 @@
-"""Refuse forbidden vernacular anywhere in the Coq development."""
+"""Refuse forbidden vernacular anywhere in the Coq development.
+
+Scans the hand-written files (theories, GenProofs, Properties) and, when they
+exist, the generated ones (coq/gen; the checks lint a generated file again
+when they write it: vlib.core.write_gen).  Works on vernacular SENTENCES
+(comments and string literals removed, split at `.` followed by white space),
+so that a second sentence on a line, or a `Local`/`Global`/`#[...]` prefix,
+cannot hide a declaration.  Only `Section` opens a scope in which
+Variable/Hypothesis/Context are allowed: `Module` does not (a Variable in a
+bare Module is a global assumption).
+"""
 import os
 import re
 import sys
@@ -9,26 +19,70 @@ BAD = re.compile(
     r'\b(Admitted|admit|Axiom|Axioms|Parameter|Parameters|Conjecture|'
     r'Conjectures)\b|Admit\s+Obligations|Unset\s+Guard|bypass_check|'
     r'type-in-type|impredicative-set|Unset\s+Universe\s+Checking|'
-    r'Unset\s+Positivity')
-SECTION_ONLY = re.compile(r'^\s*(Variable|Variables|Hypothesis|Hypotheses|Context)\b')
-bad = 0
-for d in ('theories', 'GenProofs', 'Properties'):
-    for root, _, files in os.walk(os.path.join(COQ, d)):
-        for fn in files:
-            if not fn.endswith('.v'):
-                continue
-            p = os.path.join(root, fn)
-            src = strip_comments(open(p).read())
-            depth = 0
-            for i, line in enumerate(src.split('\n'), 1):
-                if re.match(r'\s*(Section|Module)\b', line):
-                    depth += 1
-                if re.match(r'\s*End\b', line):
-                    depth -= 1
-                if BAD.search(line):
-                    print(f'{p}:{i}: forbidden: {line.strip()}')
-                    bad += 1
-                if SECTION_ONLY.match(line) and depth <= 0:
-                    print(f'{p}:{i}: Variable/Hypothesis outside a section')
-                    bad += 1
-sys.exit(1 if bad else 0)
+    r'Unset\s+Positivity|Unset\s+Guard\s+Checking')
+PREFIX = r'(?:(?:Local|Global|Polymorphic|Monomorphic|#\[[^\]]*\])\s+)*'
+SECTION_ONLY = re.compile(
+    r'^' + PREFIX + r'(Variable|Variables|Hypothesis|Hypotheses|Context)\b')
+SECTION = re.compile(r'^' + PREFIX + r'Section\s+([A-Za-z_][\w\']*)')
+MODULE = re.compile(
+    r'^' + PREFIX + r'Module\s+(?:Type\s+)?(?:Import\s+|Export\s+)?'
+    r'([A-Za-z_][\w\']*)\s*(:=)?')
+END = re.compile(r'^End\s+([A-Za-z_][\w\']*)')
+STRING = re.compile(r'"(?:[^"]|"")*"')
+
+
+def sentences(src):
+    """(line number, sentence) pairs; bullets and braces stripped."""
+    src = STRING.sub('""', strip_comments(src))
+    out, start, line = [], 0, 1
+    for m in re.finditer(r'\.(?=\s|$)', src):
+        s = src[start:m.start()]
+        ln = line + len(s) - len(s.lstrip()) and \
+            line + s[:len(s) - len(s.lstrip())].count('\n')
+        out.append((ln, ' '.join(s.split()).lstrip('-+*{} ')))
+        line += src[start:m.end()].count('\n')
+        start = m.end()
+    return out
+
+
+def lint_file(p):
+    bad = 0
+    stack = []      # 'S' for Section, 'M' for Module, by name
+    for ln, s in sentences(open(p).read()):
+        if BAD.search(s):
+            print(f'{p}:{ln}: forbidden: {s[:100]}')
+            bad += 1
+        m = SECTION.match(s)
+        if m:
+            stack.append(('S', m.group(1)))
+            continue
+        m = MODULE.match(s)
+        if m and not m.group(2):         # `Module X := ...` opens nothing
+            stack.append(('M', m.group(1)))
+            continue
+        m = END.match(s)
+        if m:
+            for k in range(len(stack) - 1, -1, -1):
+                if stack[k][1] == m.group(1):
+                    del stack[k:]
+                    break
+            continue
+        if SECTION_ONLY.match(s) and not any(k == 'S' for k, _ in stack):
+            print(f'{p}:{ln}: Variable/Hypothesis/Context outside a Section: '
+                  f'{s[:100]}')
+            bad += 1
+    return bad
+
+
+def main(dirs=('theories', 'GenProofs', 'Properties', 'gen')):
+    bad = 0
+    for d in dirs:
+        for root, _, files in os.walk(os.path.join(COQ, d)):
+            for fn in sorted(files):
+                if fn.endswith('.v'):
+                    bad += lint_file(os.path.join(root, fn))
+    return bad
+
+
+if __name__ == '__main__':
+    sys.exit(1 if main() else 0)
